@@ -239,6 +239,10 @@ impl Scenario for C10 {
                     }
                 }
             }
+            if rng.chance(1, 25) {
+                // the text itself begins with U+FEFF (one or two of them), in front of whatever came first
+                t.insert_str(0, if rng.chance(1, 3) { "\u{feff}\u{feff}" } else { "\u{feff}" });
+            }
             if rng.chance(1, 40) {
                 // a line that is longer than 64 KiB in some encodings and shorter in others
                 let unit = *rng.pick(&["x", "\u{4E00}", "\u{E9}", "ab ", "\u{1F600}"]);
@@ -318,10 +322,16 @@ impl Scenario for C10 {
             }
             "equiv" => {
                 let Ok(text) = std::str::from_utf8(&plan.data) else { return Ok(()) };
-                let text = text.trim_start_matches('\u{feff}');
+                // a text that itself begins with U+FEFF cannot be told from a BOM when stored as plain UTF-8: such texts are
+                // compared across the three BOM-marked encodings only (every second one keeps its U+FEFF, the others lose it)
+                let keep_feff = text.starts_with('\u{feff}') && plan.idx % 2 == 0;
+                let text = if keep_feff { text } else { text.trim_start_matches('\u{feff}') };
                 let dec = Dec::from_i(plan.get("dec"));
                 let mut first: Option<(Enc, crate::transport::Outcome)> = None;
                 for enc in ENCS {
+                    if keep_feff && enc == Enc::Utf8 {
+                        continue;
+                    }
                     let mut q = plan.clone();
                     q.data = encode_text(text, enc);
                     let via = decode_via(&q, dec, st);
